@@ -986,6 +986,19 @@ func (h *NtfnsHandler) asyncImport(walletId string) (finish bool, err error) {
 func (h *NtfnsHandler) asyncRemove(walletId string) error {
 	am, err := h.walletMgr.ksmgr.GetAddrManagerByAccountID(walletId)
 	if err != nil {
+		// a failed last step drops the keystore from the cache; if its reload failed as well,
+		// the keystore is still in the database: load it and go on
+		err = mwdb.View(h.walletMgr.db, func(rtx mwdb.ReadTransaction) error {
+			h.walletMgr.ksmgr.UpdateManagedKeystores(rtx, walletId)
+			return nil
+		})
+		if err != nil {
+			logging.CPrint(logging.ERROR, "failed to reload keystore", logging.LogFormat{"err": err, "walletId": walletId})
+			return err
+		}
+		am, err = h.walletMgr.ksmgr.GetAddrManagerByAccountID(walletId)
+	}
+	if err != nil {
 		logging.CPrint(logging.ERROR, "unexpected error", logging.LogFormat{"err": err, "walletId": walletId})
 		return nil
 	}
